@@ -170,6 +170,10 @@ func (b *BitMatrix) SetRegion(left, top, width, height int) error {
 	if height < 1 || width < 1 {
 		return errors.New("IllegalArgumentException: Height and width must be at least 1")
 	}
+	if width > b.width || height > b.height || left > b.width-width || top > b.height-height {
+		// also keeps the sums below from wrapping around for arguments near the largest int
+		return errors.New("IllegalArgumentException: The region must fit inside the matrix")
+	}
 	right := left + width
 	bottom := top + height
 	if bottom > b.height || right > b.width {
